@@ -9,7 +9,7 @@ the theorems state equality (`∀ k, lookup k a = lookup k b`).
 Full-strength goal (DESIGN §4):   ∀ d ∈ descriptors, d.agree        — and from it, for every kind,
   normal-form round trip (`flat_normal_roundtrip`), stability (`flat_stable`), nothing lost
   (`flat_keeps_field`, `flat_keeps_unknown`), nothing invented (`flat_nothing_invented`);
-  over the whole document tree: `rt_stable_partial` (deep stability, by induction; exclusion `JV.clean`).
+  over the whole document tree: `rt_stable_partial` (deep stability, by induction; only exclusion `JV.clean` = DateExampleTrim at depth).
 `all_kinds_agree` holds of the tree at full strength since the repairs 901ea22 (RequestBody.content /
 OAuthFlow.scopes: a nil map is written as {}, former class RequiredMapAbsent) and 2f6387f (an empty type list
 is omitted, former class EmptyTypeList); `requiredMap_fixed`, `emptyTypes_fixed` are the regression theorems
@@ -353,7 +353,7 @@ theorem ref_wrappers_uniform :
 
 /-- the side conditions of the deep induction hold of every row of the regenerated table: struct kinds agree,
     every child shape fits the Go type class of its field, the date post-processing reads plain fields, no
-    wrapper / alias stands for a bare type list -/
+    wrapper / alias / container stands for (a map of) bare type lists -/
 theorem table_deepOK : ∀ d ∈ descriptors, d.deepOK = true := by decide
 
 /- Full-strength statement (fails on this tree: open finding F-C03-1, `dateTrim_witness`):
@@ -363,9 +363,9 @@ theorem table_deepOK : ∀ d ∈ descriptors, d.deepOK = true := by decide
     wrappers, map-like containers, named maps, lists, `Types`, `AdditionalProperties`), any nesting depth, any
     input (redundant defaults, nulls, unknown keys, extensions, siblings of `$ref` included): what the first trip
     (parse, serialise) writes is a fixed point — parsing and serialising it again gives exactly the same JSON.
-    Exclusion `JV.clean`: no object of the input is changed by the date-trimming statement (class
-    DateExampleTrim, at every depth), and every `$ref` member is a non-empty string. Induction over the fuel
-    with the invariant `Inv` (Lemmas/C03Deep.lean). -/
+    The only exclusion is `JV.clean`: no object of the input is changed by the date-trimming statement (class
+    DateExampleTrim — open finding F-C03-1 — at every depth). Induction over the fuel with the invariant `Inv`
+    (Lemmas/C03Deep.lean). -/
 theorem rt_stable_of_table (T : List Desc) (hT : ∀ d ∈ T, d.deepOK = true) (n : Nat) (s : Shape) (v v1 : JV)
     (hc : v.clean = true) (h : rt T n s v = .ok v1) : rt T n s v1 = .ok v1 :=
   (rt_inv hT n).idem s v v1 hc h
@@ -375,12 +375,12 @@ theorem rt_stable_partial (n : Nat) (s : Shape) (v v1 : JV) (hc : v.clean = true
     (h : rt descriptors n s v = .ok v1) : rt descriptors n s v1 = .ok v1 :=
   rt_stable_of_table descriptors table_deepOK n s v v1 hc h
 
-/-- nothing is invented at any depth as far as references go: an object without a `$ref` member never
-    acquires one (no hypothesis on the input) -/
-theorem rt_invents_no_ref (n : Nat) (s : Shape) (kvs kvs1 : Obj)
-    (h : rt descriptors n s (.obj kvs) = .ok (.obj kvs1)) (hl : lookup "$ref" kvs = none) :
-    lookup "$ref" kvs1 = none :=
-  (rt_inv table_deepOK n).noRef s kvs kvs1 h hl
+/-- no reference is invented at any depth: an object that is not a reference (no `$ref` member, or one
+    that is not a non-empty string) is not serialised as one (no hypothesis on the input) -/
+theorem rt_invents_no_ref (n : Nat) (s : Shape) (kvs kvs1 : Obj) (hs : refSafe s = true)
+    (h : rt descriptors n s (.obj kvs) = .ok (.obj kvs1)) (hr : refString kvs = none) :
+    refString kvs1 = none :=
+  (rt_inv table_deepOK n).noRef s kvs kvs1 hs h hr
 
 /-- a value never becomes null in the trip (only an empty type list does) -/
 theorem rt_keeps_non_null (n : Nat) (s : Shape) (v v1 : JV) (hs : s ≠ .types)
